@@ -126,7 +126,7 @@ def run(tier: str) -> int:
                            job("a4", MaxOps=6, MaxDepth=2, Interrupts="FALSE", OnlyOps="OpsLeafLoops")], parallel=4)
         else:
             rs = run_many([job("a1", MaxOps=5, MaxDepth=3), job("a2", Names='{"a","b"}', MaxOps=4, MaxDepth=3), job("a3", MaxOps=4, GlobalSets="GlobalsQuick"),
-                           job("a4", MaxOps=7, MaxDepth=3, Interrupts="FALSE", OnlyOps="OpsLeafLoops")], parallel=4)
+                           job("a4", MaxOps=6, MaxDepth=3, Interrupts="FALSE", OnlyOps="OpsLeafLoops")], parallel=4)
     finally:
         cleanup_gen()
     cases = []
